@@ -274,10 +274,8 @@ func (c06Engine) Gen(g *Gen) {
 		c := hw
 		c.Ops = []opJ{}
 		var fis []int
-		for fi, f := range c.Files {
-			if len(f.Deps) > 0 {
-				fis = append(fis, fi)
-			}
+		for fi := range c.Files {
+			fis = append(fis, fi) // every file: leaves matter for Dependents(), importers for the import relations
 		}
 		for _, acc := range []string{"transitive", "imports", "dependents", "unused"} {
 			for pass := 0; pass < 3; pass++ {
@@ -330,7 +328,7 @@ func (c06Engine) Gen(g *Gen) {
 			}
 		}
 		for _, en := range allEntities(r) {
-			if hub && (en.kind != "file" || len(w.Files[en.ref.File].Deps) == 0) {
+			if hub && en.kind != "file" {
 				continue
 			}
 			for _, acc := range accessorsOf(en.kind) {
